@@ -552,6 +552,17 @@ def ss_checks(ci, r):
     return out
 
 
+def reactive_class(ss, yn):
+    """'L' / 'C' when the output named yn is the branch current of an inductor / capacitor (components that the
+    state-space maker replaces by sources), else None"""
+    if not yn.startswith('i_'):
+        return None
+    for d in ss.get('ssnet', []):
+        if d['name'] == yn[2:-3]:
+            return 'L' if d['is_L'] else ('C' if d['is_C'] else None)
+    return None
+
+
 def ss_oracle(r, conv):
     """independent exact checks of the state-space model of one circuit.  returns (violations, contract failures, stats)"""
     bad, contract = [], []
@@ -567,21 +578,28 @@ def ss_oracle(r, conv):
     s0 = Fraction(ss['points'][0])
     # extraction contract on the excitations Lcapy solved itself (also evaluated inside Coq): A X + B U = dx/dt, C X + D U = y
     extraction_bad = False
+    dot_rows = []       # (state name, exactly negated?) of every row of A X + B U that differs from the physical derivative
+    conv_ = r.get('convention', 'passive')
     for e in ss.get('excitations', []):
         if 'error' in e or any(x is None for x in e['dotx'] + e['y']):
             continue
         X_, U_ = [Fraction(x) for x in e['X']], [Fraction(x) for x in e['U']]
         for k in range(n):
-            if sum(A[k][j] * X_[j] for j in range(n)) + sum(B[k][j] * U_[j] for j in range(len(U_))) != Fraction(e['dotx'][k]):
+            got_ = sum(A[k][j] * X_[j] for j in range(n)) + sum(B[k][j] * U_[j] for j in range(len(U_)))
+            if got_ != Fraction(e['dotx'][k]):
                 extraction_bad = True
+                dot_rows.append((ss['x'][k], got_ == -Fraction(e['dotx'][k])))
         for k in range(len(C)):
             if sum(C[k][j] * X_[j] for j in range(n)) + sum(D[k][j] * U_[j] for j in range(len(U_))) != Fraction(e['y'][k]):
                 extraction_bad = True
     unit_neg = any(u.replace(' ', '').startswith('-') for u in ss.get('u', []))
     pairs = [frozenset(e['n']) for e in r.get('elements', []) if lcls_of(e) == 'LR']
     par_r = len(pairs) != len(set(pairs))
-    ext_key = ('ss:extraction:parallel-resistors(symbolic-solve)' if par_r else
-               ('ss:extraction:negated-source-expression' if unit_neg else 'ss:extraction'))
+    cap_sign = bool(dot_rows) and conv_ != 'passive' and all(nm.startswith('v_') and neg for nm, neg in dot_rows)
+    ext_key = (('ss:capacitor-derivative-sign:%s' % conv_) if cap_sign else
+               ('ss:extraction:parallel-resistors(symbolic-solve)' if par_r else
+                ('ss:extraction:negated-source-expression' if unit_neg else 'ss:extraction')))
+    sign_bad = []
     # (1) substitution model
     for d in ss['ssnet']:
         exp = ss_expected_subst(d, conv)
@@ -606,6 +624,8 @@ def ss_oracle(r, conv):
                     continue
                 y = sum(C[k][j] * X0[j] for j in range(n))
                 st['checked'] += 1
+                if y != Fraction(yr) and conv_ != 'passive' and reactive_class(ss, yn) and y == -Fraction(yr):
+                    continue        # reported with the full response below (output sign of a substituted component)
                 if y != Fraction(yr):
                     bad.append({'key': 'ss:initial-state-response:%s' % ('voltage' if yn.startswith('v_') else 'current'),
                                 'what': 'initial-state response of %s: C (sI-A)^-1 x0 = %s at s = %s, circuit analysis with the sources zeroed gives %s' % (yn, y, s0, yr)})
@@ -632,6 +652,11 @@ def ss_oracle(r, conv):
                 y = sum(C[k][j] * X[j] for j in range(n)) + sum(D[k][j] * U[j] for j in range(len(U)))
                 st['checked'] += 1
                 if y != Fraction(yr):
+                    rc_ = reactive_class(ss, yn)
+                    if conv_ != 'passive' and rc_ and y == -Fraction(yr):
+                        sign_bad.append({'key': 'ss:output-current-sign:%s:%s' % (conv_, rc_),
+                                         'what': 'under the %s current sign convention the state-space output %s is minus the current circuit analysis reports for that component (%s vs %s at s = %s)' % (conv_, yn, y, yr, s0)})
+                        continue
                     bad.append({'key': 'ss:response:%s%s' % ('with-ic:' if any(x0) else '', 'voltage' if yn.startswith('v_') else 'current'),
                                 'what': 'state-space output %s = %s at s = %s, circuit analysis gives %s' % (yn, y, s0, yr)})
             for k, (xn, xr) in enumerate(zip(ss['x'], ss.get('xref', []))):
@@ -671,6 +696,12 @@ def ss_oracle(r, conv):
             if any(P[0] * md[i] != P[i] * md[0] for i in range(len(pts))) or (P[0] == 0) != (md[0] == 0):
                 bad.append({'key': 'ss:characteristic-polynomial:natural-frequencies',
                             'what': 'characteristic polynomial is not a constant multiple of the determinant of the MNA matrix (values %s vs %s)' % (P, md)})
+    if sign_bad and not extraction_bad:
+        seen_ = set()
+        for b_ in sign_bad:
+            if b_['key'] not in seen_:
+                seen_.add(b_['key'])
+                bad.append(b_)
     if extraction_bad:
         # one root cause: the matrices were not extracted correctly from the substituted circuit
         if bad:
